@@ -974,7 +974,8 @@ pub struct VerifArea {
 
 #[cfg(ax_verif)]
 impl Axecutor {
-    /// All areas in creation order, with their raw bytes regardless of permissions.
+    /// All areas in creation order, with their bytes regardless of permissions. `data` is the
+    /// contents of `[start, start + length)`, however the area stores it.
     pub fn verif_areas(&self) -> Vec<VerifArea> {
         self.state
             .memory
@@ -984,7 +985,7 @@ impl Axecutor {
                 length: a.length,
                 access: a.access,
                 name: a.name.clone(),
-                data: a.data.clone(),
+                data: a.data[..(a.length as usize).min(a.data.len())].to_vec(),
             })
             .collect()
     }
@@ -998,12 +999,12 @@ impl Axecutor {
             .collect()
     }
 
-    /// Raw bytes of the area starting at `start`, regardless of permissions.
+    /// Bytes of `[start, start + length)` of the area starting at `start`, regardless of permissions.
     pub fn verif_area_data(&self, start: u64) -> Option<&[u8]> {
         self.state
             .memory
             .iter()
             .find(|a| a.start == start)
-            .map(|a| a.data.as_slice())
+            .map(|a| &a.data[..(a.length as usize).min(a.data.len())])
     }
 }
